@@ -23,6 +23,17 @@ BmpCompression(h) == U16(h, 30)
 BmpDimsSmall(h) == U32Small(h, 18) /\ U32Small(h, 22) /\ U32Small(h, 10)
 BmpIsPlainTrueColour(h) == Byte(h, 0) = 66 /\ Byte(h, 1) = 77 /\ U32Small(h, 14) /\ U32(h, 14) = 40 /\ BmpBpp(h) \in {24, 32} /\ BmpCompression(h) = 0 /\ Byte(h, 32) = 0 /\ Byte(h, 33) = 0
 BmpNeeded(h) == U32(h, 10) + BmpPitch(U32(h, 18), BmpBpp(h) \div 8) * U32(h, 22)
+\* a BMP whose header is consistent with itself and with the file length (uncompressed, bottom-up, small): a reader has no excuse on it
+BmpBitsPerPixel(h) == IF BmpBpp(h) = 15 THEN 16 ELSE BmpBpp(h)
+BmpRowBytes(h) == ((U32(h, 18) * BmpBitsPerPixel(h) + 31) \div 32) * 4
+BmpPaletteBytes(h) == IF BmpBpp(h) <= 8 THEN 4 * Pow2(BmpBpp(h)) ELSE 0
+BmpSane(h, len) ==
+    /\ Byte(h, 0) = 66 /\ Byte(h, 1) = 77 /\ U32Small(h, 14) /\ U32(h, 14) = 40
+    /\ BmpBpp(h) \in {1, 4, 8, 15, 16, 24, 32} /\ BmpCompression(h) = 0 /\ Byte(h, 32) = 0 /\ Byte(h, 33) = 0
+    /\ BmpDimsSmall(h) /\ U32(h, 18) >= 1 /\ U32(h, 18) < 256 /\ U32(h, 22) >= 1 /\ U32(h, 22) < 256
+    /\ (BmpBpp(h) <= 8 => (U16(h, 48) = 0 /\ U16(h, 46) \in {0, Pow2(BmpBpp(h))}))
+    /\ U32(h, 10) >= 54 + BmpPaletteBytes(h) /\ U32(h, 10) < 4096
+    /\ len >= U32(h, 10) + BmpRowBytes(h) * U32(h, 22)
 \* ------------------------------------------------------------------ TARGA
 TgaType(h) == Byte(h, 2)
 TgaIsRawTrueColour(h) == TgaType(h) = 2 /\ Byte(h, 1) = 0 /\ Byte(h, 16) \in {24, 32}
@@ -65,8 +76,9 @@ P_TooShort(fmt, h, len) ==
 \* families of inputs for which the pinned readers are known to be unsafe (specification-level causes)
 PnmZeroDim(h) == LET a == 3 b == TokEnd(h, a) c == b + 1 d == TokEnd(h, c) IN
                  Byte(h, 0) = 80 /\ IsSpace(Byte(h, 2)) /\ b > a /\ d > c /\ (NumVal(h, a, b) = 0 \/ NumVal(h, c, d) = 0)
-Cause(fmt, h, api) ==
-    CASE fmt = "pnm" /\ LongestDigitRun(h, 0, 0, 0) > 15 -> "pnm-token-longer-than-buffer"
+Cause(fmt, h, api, len) ==
+    CASE fmt = "bmp" /\ BmpSane(h, len) -> "None"
+      [] fmt = "pnm" /\ LongestDigitRun(h, 0, 0, 0) > 15 -> "pnm-token-longer-than-buffer"
       [] fmt = "pnm" /\ PnmZeroDim(h) -> "zero-dimension"
       [] fmt = "jpg" -> "jpeg-error-path"
       [] fmt = "tga" /\ TgaType(h) \in {9, 10, 11} -> "targa-rle"
